@@ -371,45 +371,35 @@ Qed.
 Lemma go_LRemNum_spec l key count v : items_ok l -> int_ok count ->
   exists g, go_List_LRemNum l key count v = GOk (l, g) /\
             agrees 0 g (l_lremnum (List_Items l) key count v).
-Proof.
-  intros Hok Hcount.
-  unfold go_List_LRemNum, l_lremnum, has_key, lookup0.
-  rewrite go_Size_eq. unfold l_size.
-  destruct (alookup (List_Items l) key) as [xs|] eqn:Hlk; cbn [negb gbind]; rewrite ?Hlk.
-  2:{ eexists. split; [reflexivity|]. cbn. split; [reflexivity|discriminate]. }
-  pose proof (Hok key xs Hlk) as Hsz. pose proof (zlen_nonneg xs) as Hsz0.
-  unfold lremnum_list.
-  destruct (zlen xs <? count) eqn:E0.
-  { eexists. split; [reflexivity|]. cbn. split; [reflexivity|discriminate]. }
-  rewrite (ineg_id (zlen xs)) by (apply int_ok_62; pow2; lia).
-  rewrite if_GOk. cbn [gbind].
-  set (c1 := if count <? - zlen xs then - zlen xs else count).
-  assert (Hc1 : - zlen xs <= c1 <= zlen xs) by (subst c1; destruct (count <? - zlen xs) eqn:E1; lia).
-  clearbody c1.
-  rewrite (ineg_id c1) by (apply int_ok_62; pow2; lia).
-  rewrite if_GOk. cbn [gbind].
-  set (c := if c1 <? 0 then - c1 else c1).
-  assert (Hc : 0 <= c <= zlen xs) by (subst c; destruct (c1 <? 0) eqn:E1; lia).
-  clearbody c.
-  match goal with
-  | |- context [grange ?bd ?ix ?ls ?st0] =>
-      rewrite (grange_fold_break
-                 (fun r x => if (0 <? c) && (r =? c) then r else if bytes_eqb x v then r + 1 else r)
-                 (fun rest r => 0 <= r /\ r + zlen rest <= zlen xs) bd) with (l := ls) (j := ix) (s := st0)
-  end.
-  - eexists. split; [reflexivity|]. unfold count_upto. reflexivity.
-  - intros j x rest r [Hr0 Hr1]. rewrite zlen_cons in Hr1. pose proof (zlen_nonneg rest) as Hrest.
-    destruct ((0 <? c) && (r =? c)) eqn:E.
-    + right. split; [reflexivity|]. intros l'. apply count_step_stationary. exact E.
-    + left. destruct (bytes_eqb x v) eqn:Ex.
-      * rewrite iadd_id by (apply int_ok_62; pow2; lia). split; [reflexivity|lia].
-      * split; [reflexivity|lia].
-  - lia.
-Qed.
+Proof. exact (go_LRemNum_eq l key count v). Qed.
 
 (* ====================================================================== *)
 (** * LRem                                                                 *)
 (* ====================================================================== *)
+
+(** wrap-free arithmetic on closed terms, bounds by [lia] from the 2^62 bounds *)
+Ltac go_arith62 :=
+  match goal with
+  | |- context [iadd ?a ?b] => rewrite (iadd_id a b) by (apply int_ok_62; pow2; lia)
+  | |- context [isub ?a ?b] => rewrite (isub_id a b) by (apply int_ok_62; pow2; lia)
+  | |- context [ineg ?a] => rewrite (ineg_id a) by (apply int_ok_62; pow2; lia)
+  end.
+
+(** the code's value [x] of a conditional assignment is the model's value [m] *)
+Ltac same_value x m :=
+  let H := fresh in
+  assert (H : x = m) by (subst x; subst m; go_cases; first [reflexivity | lia]);
+  clearbody x; subst x.
+
+(** one iteration of a filtering loop, given [Hstep], the instance of [filt_step]
+    for the current element; [fin] finishes the goal from the new invariant *)
+Ltac filt_iter Hstep fin :=
+  go_cases_in Hstep;
+  first [ let Ha := fresh in let HI1 := fresh in
+          destruct Hstep as [Ha HI1]; rewrite Ha; eexists; split; [reflexivity|]; fin HI1
+        | let b := fresh in let Hu := fresh in let Ha := fresh in let HI1 := fresh in
+          destruct Hstep as (b & Hu & Ha & HI1); rewrite Hu; cbn [gbind]; rewrite Ha;
+          eexists; split; [reflexivity|]; fin HI1 ].
 
 (** the fuel actually needed: one more than the list size (backward pass) *)
 Lemma go_LRem_eq_fuel fuel l key count v :
@@ -428,11 +418,11 @@ Proof.
   2:{ eexists. split; [reflexivity|]. cbn. split; [reflexivity|discriminate]. }
   pose proof (Hok key xs Hlk) as Hsz. pose proof (zlen_nonneg xs) as Hsz0.
   subst size.
-  (* clamp of count *)
-  rewrite (ineg_id (zlen xs)) by (apply int_ok_62; pow2; lia).
-  rewrite if_GOk. cbn [gbind].
+  (* clamp of count: [c1] in the model; the code's value is the same *)
+  repeat go_arith62.
   unfold lrem_list. cbv zeta.
   set (c1 := if count <? - zlen xs then - zlen xs else count).
+  go_name_cond cg. same_value cg c1.
   assert (Hc1 : - zlen xs <= c1 /\ int_ok c1).
   { subst c1. destruct (count <? - zlen xs) eqn:E1; (split; [lia|]); [apply int_ok_62; pow2; lia|exact Hcount]. }
   destruct Hc1 as [Hc1 Hc1ok]. clearbody c1.
@@ -454,105 +444,120 @@ Proof.
   destruct Hnum as (need & Hnum & Hneedb & Hneed).
   rewrite Hnum in Hag |- *. cbn [agrees] in Hag. subst g.
   cbn [err_is_nil negb].
-  destruct (need =? 0) eqn:En.
+  destruct (need =? 0) eqn:En; go_heads.
   { eexists. split; [reflexivity|]. cbn. reflexivity. }
   (* make the new slice *)
-  rewrite (isub_id (zlen xs) need) by (apply int_ok_62; pow2; lia).
+  repeat go_arith62.
   rewrite gmake_ok by lia. cbn [gbind].
-  rewrite if_GOk. cbn [gbind].
+  (* count = 0 means "all": [c2] in the model; the code's value is the same *)
   set (c2 := if c1 =? 0 then need else c1).
+  go_name_cond cg. same_value cg c2.
   assert (Hc2 : c2 <> 0 /\ - zlen xs <= c2 <= zlen xs /\
                 need = Z.min (Z.abs c2) (Z.of_nat (occ v xs))).
   { subst c2. destruct (c1 =? 0) eqn:E; lia. }
   destruct Hc2 as (Hc2nz & Hc2b & Hneed2). clearbody c2. clear Hneed.
-  destruct (0 <? c2) eqn:Epos; cbn [fst snd]; rewrite En.
+  destruct (0 <? c2) eqn:Epos; cbn [fst snd]; rewrite En; go_heads.
   - (* forward pass *)
     set (K := remove_first (Z.to_nat c2) v xs).
     assert (HKlen : zlen xs - zlen K = need).
     { pose proof (length_remove_first (Z.to_nat c2) v xs) as HL. fold K in HL. unfold zlen. lia. }
     replace (Z.to_nat (zlen xs - need)) with (length K) by (unfold zlen in *; lia).
     assert (HKb : zlen K < 2 ^ 62) by lia.
+    (* the loop state holds (removed so far, buffer, write index), in an order
+       that depends on the loop body: found by [with_dec3] *)
     match goal with
     | |- context [grange ?bd ?ix ?ls ?st0] =>
-        destruct (grange_inv
-                    (fun rest (st : Z * list bytes * Z) =>
-                       let '(r, buf, idx) := st in filt_inv c2 v K need rest r buf idx) bd)
-          with (l := ls) (j := ix) (s := st0) as (s' & Hs' & HI')
+        let T := type of st0 in
+        with_dec3 T ltac:(fun dec =>
+          destruct (grange_inv
+                      (fun rest (st : T) =>
+                         let '(r, buf, idx) := dec st in filt_inv c2 v K need rest r buf idx) bd)
+            with (l := ls) (j := ix) (s := st0) as (s' & Hs' & HI');
+          [ solve [ intros j x rest [[s1 s2] s3] HI; cbv beta iota zeta in HI |- *;
+                    match type of HI with filt_inv _ _ _ _ _ ?r ?buf ?idx =>
+                      pose proof (filt_step c2 v K need x rest r buf idx ltac:(lia) HKb HI) as Hstep
+                    end;
+                    filt_iter Hstep ltac:(fun HI1 => exact HI1) ]
+          | solve [ cbv beta iota zeta; apply filt_init; [lia|exact HKlen] ]
+          | ])
     end.
-    + intros j x rest [[r buf] idx] HI.
-      pose proof (filt_step c2 v K need x rest r buf idx ltac:(lia) HKb HI) as Hstep.
-      destruct ((r <? c2) && bytes_eqb x v) eqn:E.
-      * destruct Hstep as [Ha HI1]. rewrite Ha. eexists. split; [reflexivity|exact HI1].
-      * destruct Hstep as (buf' & Hu & Ha & HI1). rewrite Hu. cbn [gbind]. rewrite Ha.
-        eexists. split; [reflexivity|exact HI1].
-    + apply filt_init; [lia|exact HKlen].
-    + rewrite Hs'. destruct s' as [[r buf] idx].
-      apply filt_final in HI' as (Hr & Hbuf & Hidx). subst r buf idx.
-      cbn [gbind].
-      destruct (c2 <? 0) eqn:Eneg; [lia|]. cbn [gbind].
-      eexists. split; [reflexivity|]. cbn. reflexivity.
+    rewrite Hs'. destruct s' as [[s1 s2] s3]. cbv beta iota zeta in HI'.
+    apply filt_final in HI' as (Hr & Hbuf & Hidx).
+    try subst s1; try subst s2; try subst s3.
+    cbn [gbind]. go_heads.
+    eexists. split; [reflexivity|]. cbn. reflexivity.
   - (* backward pass, then reversal *)
-    cbn [gbind].
-    destruct (c2 <? 0) eqn:Eneg; [|lia].
-    rewrite (ineg_id c2) by (apply int_ok_62; pow2; lia).
-    rewrite (isub_id (zlen xs) 1) by (apply int_ok_62; pow2; lia).
-    set (c := - c2).
+    repeat go_arith62.
+    set (c := - c2) in *.
     set (K := remove_first (Z.to_nat c) v (rev xs)).
     assert (HKlen : zlen xs - zlen K = need).
     { pose proof (length_remove_first (Z.to_nat c) v (rev xs)) as HL. fold K in HL.
       rewrite occ_rev, rev_length in HL. unfold zlen. lia. }
     replace (Z.to_nat (zlen xs - need)) with (length K) by (unfold zlen in *; lia).
     assert (HKb : zlen K < 2 ^ 62) by lia.
+    (* loop state: (removed so far, buffer, write index, read index) in some order *)
     match goal with
     | |- context [gfor ?fu ?cn ?bd ?po ?st0] =>
-        destruct (gfor_inv
-                    (fun st : Z * list bytes * Z * Z =>
-                       let '(r, buf, idx, i) := st in back_inv c v K need xs r buf idx i)
-                    (fun st => Z.to_nat (snd st + 1)) cn bd po)
-          with (fuel := fu) (s := st0) as (s' & Hs' & HI' & Hcond)
-    end.
-    + intros [[[r buf] idx] i] HI Hcn.
-      destruct (back_step c v K need xs r buf idx i Hsz HI ltac:(lia)) as (x & Hx & Hsub & Hib & HF).
-      rewrite Hx. cbn [gbind].
-      pose proof (filt_step c v K need x _ r buf idx ltac:(lia) HKb HF) as Hstep.
-      destruct ((r <? c) && bytes_eqb x v) eqn:E.
-      * destruct Hstep as [Ha HI1]. rewrite Ha. eexists. split; [reflexivity|].
-        cbn [snd]. rewrite Hsub. split; [split; [exact Hib|exact HI1]|lia].
-      * destruct Hstep as (buf' & Hu & Ha & HI1). rewrite Hu. cbn [gbind]. rewrite Ha.
-        eexists. split; [reflexivity|].
-        cbn [snd]. rewrite Hsub. split; [split; [exact Hib|exact HI1]|lia].
-    + split; [lia|].
-      replace (Z.to_nat (zlen xs - 1 + 1)) with (length xs) by (unfold zlen; lia).
-      rewrite firstn_all.
-      apply filt_init; [lia|]. fold K. rewrite zlen_rev. exact HKlen.
-    + cbn [snd]. lia.
-    + rewrite Hs'. destruct s' as [[[r buf] idx] i]. destruct HI' as [Hib HF].
-      assert (i = -1) by lia. subst i.
-      change (Z.to_nat (-1 + 1)) with O in HF. cbn [firstn rev] in HF.
-      apply filt_final in HF as (Hr & Hbuf & Hidx). subst r buf idx.
-      cbn [gbind].
-      pose proof (quot2_bounds (zlen K) (zlen_nonneg K)) as Hq.
-      rewrite (wrapS64_id (Z.quot (zlen K) 2)) by (apply int_ok_62; pow2; lia).
-      match goal with
-      | |- context [gfor ?fu ?cn ?bd ?po ?st0] =>
+        let T := type of st0 in
+        with_dec4 T ltac:(fun dec =>
           destruct (gfor_inv
-                      (fun st : list bytes * Z => let '(buf, i) := st in swap_inv K buf i)
-                      (fun st => Z.to_nat (Z.quot (zlen K) 2 - snd st)) cn bd po)
-            with (fuel := fu) (s := st0) as (s2 & Hs2 & HI2 & Hcond2)
-      end.
-      * intros [buf i] HI Hcn.
-        destruct (swap_step K buf i HKb HI ltac:(lia))
-          as (Hj & Hi1 & a & b & buf1 & buf2 & Hga & Hgb & Hu1 & Hu2 & HI1).
-        rewrite Hj.
-        repeat first [rewrite Hga | rewrite Hgb | rewrite Hu1 | rewrite Hu2 | progress cbn [gbind]].
-        eexists. split; [reflexivity|].
-        cbn [snd]. rewrite Hi1. split; [exact HI1|lia].
-      * apply swap_init.
-      * cbn [snd]. unfold zlen in *. lia.
-      * rewrite Hs2. destruct s2 as [buf i].
-        apply swap_final in HI2; [|lia]. subst buf.
-        cbn [gbind].
-        eexists. split; [reflexivity|]. cbn. reflexivity.
+                      (fun st : T =>
+                         let '(r, buf, idx, i) := dec st in back_inv c v K need xs r buf idx i)
+                      (fun st : T => let '(r, buf, idx, i) := dec st in Z.to_nat (i + 1)) cn bd po)
+            with (fuel := fu) (s := st0) as (s' & Hs' & HI' & Hcond);
+          [ solve [ intros [[[s1 s2] s3] s4] HI Hcn; cbv beta iota zeta in HI, Hcn |- *;
+                    match type of HI with back_inv _ _ _ _ _ ?r ?buf ?idx ?i =>
+                      destruct (back_step c v K need xs r buf idx i Hsz HI ltac:(lia))
+                        as (x & Hx & Hsub & Hib & HF);
+                      rewrite Hx; cbn [gbind];
+                      pose proof (filt_step c v K need x _ r buf idx ltac:(lia) HKb HF) as Hstep
+                    end;
+                    filt_iter Hstep ltac:(fun HI1 =>
+                      cbv beta iota zeta; rewrite Hsub; split; [split; [exact Hib|exact HI1]|lia]) ]
+          | solve [ cbv beta iota zeta; split; [lia|];
+                    replace (Z.to_nat (zlen xs - 1 + 1)) with (length xs) by (unfold zlen; lia);
+                    rewrite firstn_all;
+                    apply filt_init; [lia|]; fold K; rewrite zlen_rev; exact HKlen ]
+          | solve [ cbv beta iota zeta; lia ]
+          | ])
+    end.
+    rewrite Hs'. destruct s' as [[[s1 s2] s3] s4]. cbv beta iota zeta in HI', Hcond.
+    destruct HI' as [Hib HF].
+    match type of HF with
+    | filt_inv _ _ _ _ (rev (firstn (Z.to_nat (?i + 1)) _)) _ _ _ => assert (i = -1) by lia; subst i
+    end.
+    change (Z.to_nat (-1 + 1)) with O in HF. cbn [firstn rev] in HF.
+    apply filt_final in HF as (Hr & Hbuf & Hidx).
+    try subst s1; try subst s2; try subst s3; try subst s4.
+    cbn [gbind].
+    pose proof (quot2_bounds (zlen K) (zlen_nonneg K)) as Hq.
+    rewrite (wrapS64_id (Z.quot (zlen K) 2)) by (apply int_ok_62; pow2; lia).
+    (* loop state: (buffer, index) in some order *)
+    match goal with
+    | |- context [gfor ?fu ?cn ?bd ?po ?st0] =>
+        let T := type of st0 in
+        with_dec2 T ltac:(fun dec =>
+          destruct (gfor_inv
+                      (fun st : T => let '(buf, i) := dec st in swap_inv K buf i)
+                      (fun st : T => let '(buf, i) := dec st in Z.to_nat (Z.quot (zlen K) 2 - i)) cn bd po)
+            with (fuel := fu) (s := st0) as (s2' & Hs2 & HI2 & Hcond2);
+          [ solve [ intros [s1 s2] HI Hcn; cbv beta iota zeta in HI, Hcn |- *;
+                    match type of HI with swap_inv _ ?buf ?i =>
+                      destruct (swap_step K buf i HKb HI ltac:(lia))
+                        as (Hj & Hi1 & a & b & buf1 & buf2 & Hga & Hgb & Hu1 & Hu2 & HI1)
+                    end;
+                    rewrite ?Hj;
+                    repeat first [rewrite Hga | rewrite Hgb | rewrite Hu1 | rewrite Hu2 | progress cbn [gbind]];
+                    eexists; split; [reflexivity|];
+                    cbv beta iota zeta; rewrite Hi1; split; [exact HI1|lia] ]
+          | solve [ cbv beta iota zeta; apply swap_init ]
+          | solve [ cbv beta iota zeta; unfold zlen in *; lia ]
+          | ])
+    end.
+    rewrite Hs2. destruct s2' as [s1 s2]. cbv beta iota zeta in HI2, Hcond2.
+    apply swap_final in HI2; [|lia]. try subst s1; try subst s2.
+    cbn [gbind].
+    eexists. split; [reflexivity|]. cbn. reflexivity.
 Qed.
 
 Theorem go_LRem_eq fuel l key count v :
